@@ -6,9 +6,17 @@ use std::fmt::Write as _;
 const TYPES: [&str; 5] = ["move", "line", "offcurve", "curve", "qcurve"];
 
 fn doc(digits: &[u8], variant: u64) -> String {
-    let mut s = String::from(
-        "<?xml version=\"1.0\" encoding=\"UTF-8\"?>\n<glyph name=\"a\" format=\"2\">\n<outline>\n<contour>\n",
-    );
+    doc_fmt(digits, variant, false)
+}
+
+/// `legacy`: the same contour as a format 1 glif whose points all carry a `name` attribute
+/// (a lone named `move` point is an implicit anchor there and is not rendered this way).
+fn doc_fmt(digits: &[u8], variant: u64, legacy: bool) -> String {
+    let mut s = String::from(if legacy {
+        "<?xml version=\"1.0\" encoding=\"UTF-8\"?>\n<glyph name=\"a\" format=\"1\">\n<outline>\n<contour>\n"
+    } else {
+        "<?xml version=\"1.0\" encoding=\"UTF-8\"?>\n<glyph name=\"a\" format=\"2\">\n<outline>\n<contour>\n"
+    });
     for (i, d) in digits.iter().enumerate() {
         let t = (d / 2) as usize;
         let smooth = d % 2 == 1;
@@ -25,6 +33,9 @@ fn doc(digits: &[u8], variant: u64) -> String {
             attrs.push("smooth=\"yes\"".to_string());
         } else if (variant >> ((i + 7) % 60)) & 1 == 1 {
             attrs.push("smooth=\"no\"".to_string());
+        }
+        if legacy {
+            attrs.push(format!("name=\"p{}\"", i));
         }
         if variant != 0 && variant != u64::MAX {
             let mut r = Rng::new(variant ^ (i as u64).wrapping_mul(0x9E37_79B9));
@@ -49,6 +60,11 @@ fn doc(digits: &[u8], variant: u64) -> String {
 /// returned contour differs from the input; 8 other error; 9 panic
 pub fn verdict(digits: &[u8], variant: u64) -> char {
     let a = verdict1(digits, 0);
+    // the same sequence in a format 1 glif with named points must be judged and returned alike
+    // (except the lone `move`, which format 1 reads as an anchor)
+    if !(digits.len() == 1 && digits[0] / 2 == 0) && verdict_doc(digits, &doc_fmt(digits, variant, true)) != a {
+        return 'B';
+    }
     if variant == 0 {
         return a;
     }
@@ -62,6 +78,10 @@ pub fn verdict(digits: &[u8], variant: u64) -> char {
 
 fn verdict1(digits: &[u8], variant: u64) -> char {
     let d = doc(digits, variant);
+    verdict_doc(digits, &d)
+}
+
+fn verdict_doc(digits: &[u8], d: &str) -> char {
     let r = catch(|| Glyph::parse_raw(d.as_bytes()));
     match r {
         Err(_) => '9',
